@@ -933,3 +933,127 @@ Proof.
     subst mth. cbn [method_eqb orb is_some bind]. unfold mk_binning. rewrite Hv.
     destruct cl; try congruence; reflexivity.
 Qed.
+(* ================================================================== interpreter modes *)
+Lemma fires_debug k bad : fires k true bad = bad.
+Proof. destruct k; reflexivity. Qed.
+Lemma fires_raise dbg bad : fires GRaise dbg bad = bad.
+Proof. reflexivity. Qed.
+
+Lemma mk_binning_as_guards e m cl :
+  mk_binning e m cl
+  = if negb (2 <=? length e)%nat || negb (strict_incb e) then Rejected else Ok (mkBinning e m cl).
+Proof. unfold mk_binning, valid_edges. destruct (2 <=? length e)%nat, (strict_incb e); reflexivity. Qed.
+
+(* the code as it is (every validation a raise statement): one behaviour in both modes *)
+Lemma mk_binning_g_all_raise dbg e m cl : mk_binning_g all_raise dbg e m cl = mk_binning e m cl.
+Proof. rewrite mk_binning_as_guards. reflexivity. Qed.
+Lemma create_scales_g_all_raise dbg rmin rmax u rw res :
+  create_scales_g all_raise dbg rmin rmax u rw res = create_scales rmin rmax u rw res.
+Proof.
+  unfold create_scales_g, create_scales, all_raise, fires, g_scales.
+  destruct (default Ukpc u), (scales_valid rmin rmax); reflexivity.
+Qed.
+(* in a normally started interpreter an assert is as good as a raise: whatever the guards are *)
+Lemma mk_binning_g_debug g e m cl : mk_binning_g g true e m cl = mk_binning e m cl.
+Proof. rewrite mk_binning_as_guards. unfold mk_binning_g. rewrite !fires_debug. reflexivity. Qed.
+Lemma create_scales_g_debug g rmin rmax u rw res :
+  create_scales_g g true rmin rmax u rw res = create_scales rmin rmax u rw res.
+Proof.
+  unfold create_scales_g, create_scales. rewrite fires_debug.
+  destruct (default Ukpc u), (scales_valid rmin rmax); reflexivity.
+Qed.
+
+Section ModesP.
+Context (Dc Dci : nat -> Q -> Q) (Lg Ex : Q -> Q).
+Notation create := (create Dc Dci Lg Ex).
+Notation create_g := (create_g Dc Dci Lg Ex).
+Notation create_binning := (create_binning Dc Dci Lg Ex).
+Notation create_binning_g := (create_binning_g Dc Dci Lg Ex).
+
+Lemma create_binning_g_eq g dbg cos zmin zmax nb m e cl :
+  (forall e' m' cl', mk_binning_g g dbg e' m' cl' = mk_binning e' m' cl') ->
+  create_binning_g g dbg cos zmin zmax nb m e cl = create_binning true cos zmin zmax nb m e cl.
+Proof.
+  intros H. unfold Config.create_binning_g, Config.create_binning.
+  destruct zmin, zmax, e, (default ClRight cl); try reflexivity; try apply H;
+    destruct (gen_edges _ _ _ _ _ _ _ _ _ _); try reflexivity; apply H.
+Qed.
+
+Lemma create_g_eq g dbg p :
+  (forall e m cl, mk_binning_g g dbg e m cl = mk_binning e m cl) ->
+  (forall rmin rmax u rw res, create_scales_g g dbg rmin rmax u rw res = create_scales rmin rmax u rw res) ->
+  create_g g dbg p = create true p.
+Proof.
+  intros HB HS. unfold Config.create_g, Config.create.
+  destruct (parse_cosmology true (p_cosmo p)); try reflexivity. cbn [bind].
+  rewrite HS. destruct (create_scales _ _ _ _ _); try reflexivity. cbn [bind].
+  rewrite (create_binning_g_eq _ _ _ _ _ _ _ _ _ HB). reflexivity.
+Qed.
+
+(* mode independence of the code as it is: the model of the default interpreter, [create true], is the
+   model of the optimised interpreter *)
+Theorem create_g_all_raise dbg p : create_g all_raise dbg p = create true p.
+Proof.
+  apply create_g_eq; intros; [apply mk_binning_g_all_raise | apply create_scales_g_all_raise].
+Qed.
+
+(* why a check that runs in the default interpreter cannot see a validation by assert *)
+Theorem create_g_debug g p : create_g g true p = create true p.
+Proof. apply create_g_eq; intros; [apply mk_binning_g_debug | apply create_scales_g_debug]. Qed.
+
+Corollary invalid_rejected_any_mode dbg p : params_invalid p = true -> create_g all_raise dbg p = Rejected.
+Proof. intros H. rewrite create_g_all_raise. apply invalid_rejected; exact H. Qed.
+
+Corollary created_edges_strict_any_mode dbg p c :
+  create_g all_raise dbg p = Ok c -> valid_edges (b_edges (c_binning c)) = true.
+Proof. rewrite create_g_all_raise. apply created_edges_strict. Qed.
+End ModesP.
+
+(* a validation written as an assert (or behind `if __debug__`) is lost with -O: each of the three
+   sites, by a witness *)
+Definition no_oracle : nat -> Q -> Q := fun _ x => x.
+Theorem assert_edges_inc_refuted :
+  exists p c, params_invalid p = true /\
+    create_g no_oracle no_oracle (fun x => x) (fun x => x) (mkGuards GRaise GAssert GRaise) false p = Ok c /\
+    valid_edges (b_edges (c_binning c)) = false.
+Proof.
+  exists (mkParams [1] [2] None None None None None None None (Some [1 # 2; 1 # 4]) None (CosName 0) None).
+  eexists. repeat split; vm_compute; reflexivity.
+Qed.
+Theorem assert_limits_refuted :
+  exists p c, params_invalid p = true /\ p_zmin p = Some (3 # 4) /\ p_zmax p = Some (1 # 4) /\
+    create_g no_oracle no_oracle (fun x => x) (fun x => x) (mkGuards GRaise GAssert GRaise) false p = Ok c /\
+    valid_edges (b_edges (c_binning c)) = false.
+Proof.
+  exists (mkParams [1] [2] None None None (Some (3 # 4)) (Some (1 # 4)) (Some 2%nat) None None None (CosName 0) None).
+  eexists. repeat split; vm_compute; reflexivity.
+Qed.
+Theorem assert_edges_len_refuted :
+  exists p c, params_invalid p = true /\
+    create_g no_oracle no_oracle (fun x => x) (fun x => x) (mkGuards GAssert GRaise GRaise) false p = Ok c /\
+    length (b_edges (c_binning c)) = 1%nat.
+Proof.
+  exists (mkParams [1] [2] None None None None None None None (Some [1 # 2]) None (CosName 0) None).
+  eexists. repeat split; vm_compute; reflexivity.
+Qed.
+Theorem assert_scales_refuted :
+  exists p c, params_invalid p = true /\
+    create_g no_oracle no_oracle (fun x => x) (fun x => x) (mkGuards GRaise GRaise GAssert) false p = Ok c /\
+    scales_valid (s_rmin (c_scales c)) (s_rmax (c_scales c)) = false.
+Proof.
+  exists (mkParams [2] [1] None None None None None None None (Some [1 # 4; 1 # 2]) None (CosName 0) None).
+  eexists. repeat split; vm_compute; reflexivity.
+Qed.
+
+(* ================================================================== python types of the values *)
+Theorem linear_edges_prec_exact a b n : linear_edges_prec (fun x => x) a b n = linear_edges a b n.
+Proof.
+  unfold linear_edges_prec, linear_edges. apply map_ext. intros i. unfold lin_point.
+  destruct (i =? 0)%nat; [reflexivity|]. destruct (i =? n)%nat; reflexivity.
+Qed.
+(* F26: limits that are representable in the narrow type, and yet another grid *)
+Theorem linear_edges_prec_refuted :
+  exists rnd a b n, rnd a == a /\ rnd b == b /\ (1 <= n)%nat /\
+    hd 0 (linear_edges_prec rnd a b n) = a /\ last (linear_edges_prec rnd a b n) 0 = b /\
+    qlist_eqb (linear_edges_prec rnd a b n) (linear_edges a b n) = false.
+Proof. exists rnd_quarter, 0, 1, 3%nat. repeat split; try (vm_compute; reflexivity); lia. Qed.
